@@ -53,6 +53,7 @@ pub fn all() -> Vec<Scenario> {
         Scenario { name: "observe_scope_node_of_unobserved_bind", props: &["C04"], run: observe_scope_node_of_unobserved_bind },
         Scenario { name: "node_linked_while_its_input_is_lifted", props: &["C02", "C11", "C04"], run: node_linked_while_its_input_is_lifted },
         Scenario { name: "perkey_result_dropped_input_node_kept", props: &["C12", "C04", "C16"], run: perkey_result_dropped_input_node_kept },
+        Scenario { name: "nested_scope_node_not_lifted_with_outer_bind", props: &["C03", "C02", "C11"], run: nested_scope_node_not_lifted_with_outer_bind },
         Scenario { name: "nested_scope_node_jumps_the_queue", props: &["C03", "C02"], run: nested_scope_node_jumps_the_queue },
         Scenario { name: "mapref_projection_of_superseded_bind_run", props: &["C03"], run: mapref_projection_of_superseded_bind_run },
         Scenario { name: "expert_edge_callback_of_superseded_bind_run", props: &["C03"], run: expert_edge_callback_of_superseded_bind_run },
@@ -64,6 +65,7 @@ pub fn all() -> Vec<Scenario> {
         Scenario { name: "guard_cancels_sibling_subscription_on_drop", props: &["C04", "C10", "C09"], run: guard_cancels_sibling_subscription_on_drop },
         Scenario { name: "unsubscribe_guard_outlives_state", props: &["C12", "C04", "C10"], run: unsubscribe_guard_outlives_state },
         Scenario { name: "write_from_drop_of_dead_variable_value", props: &["C08", "C04"], run: write_from_drop_of_dead_variable_value },
+        Scenario { name: "observe_from_observability_callback", props: &["C04", "C14"], run: observe_from_observability_callback },
         Scenario { name: "state_unsubscribe_before_first_stabilise", props: &["C09", "C10"], run: state_unsubscribe_before_first_stabilise },
     ]
 }
@@ -1480,5 +1482,107 @@ fn write_from_drop_of_dead_variable_value() -> Result<(), String> {
     }
     check!(oc.try_get_value() == Ok(1) && counter.get() == 1, "after stabilising until stable: observer {:?}, get {}", oc.try_get_value(), counter.get());
     cell.borrow_mut().take();
+    Ok(())
+}
+
+
+/// The heap-order sibling of `nested_scope_node_jumps_the_queue` (defect #30, pointed out by a
+/// round-6 seeding agent): outer bind O (necessary) contains inner bind I, which a switch inside O
+/// makes unnecessary while I's node n stays observed; O's input then grows taller without changing.
+/// The lift of O's lhs-change node passed over the unnecessary I, so n stayed *below* the node that
+/// has to invalidate it and ran first, with a stale captured value.
+fn nested_scope_node_not_lifted_with_outer_bind() -> Result<(), String> {
+    let st = IncrState::new();
+    let (x, s, y, z, v) = (st.var(1i64), st.var(true), st.var(1i64), st.var(true), st.var(10i64));
+    let xw = x.watch();
+    let x_tall = xw.map(|a| *a).map(|a| *a).map(|a| *a).map(|a| *a).map(|a| *a).map(|a| *a);
+    let x_short = xw.clone();
+    let xsel = s.bind(move |s| if *s { x_short.clone() } else { x_tall.clone() });
+    let log: Rc<RefCell<Vec<(i64, i64, i64)>>> = Rc::new(RefCell::new(vec![]));
+    let stash: Slot<i64> = Rc::new(RefCell::new(None));
+    let (yw, zw, vw, stw, xc) = (y.watch(), z.watch(), v.watch(), st.weak(), x.clone());
+    let o = {
+        let (log, stash) = (log.clone(), stash.clone());
+        xsel.bind(move |&xv| {
+            let (log, stash, vw, xc) = (log.clone(), stash.clone(), vw.clone(), xc.clone());
+            let i = yw.bind(move |&yv| {
+                let (log, xc) = (log.clone(), xc.clone());
+                let n = vw.map(move |vv| {
+                    log.borrow_mut().push((xv, xc.get(), *vv));
+                    xv * 1000 + yv * 100 + *vv
+                });
+                stash.borrow_mut().replace(n.clone());
+                n
+            });
+            let c = stw.constant(-1i64);
+            zw.bind(move |zv| if *zv { i.clone() } else { c.clone() })
+        })
+    };
+    let o_obs = o.observe();
+    st.stabilise();
+    check!(o_obs.try_get_value() == Ok(1110), "O {:?}", o_obs.try_get_value());
+    let n = stash.borrow().clone().unwrap();
+    let n_obs = n.observe();
+    st.stabilise();
+    z.set(false); // I is no longer necessary; n is, on its own
+    st.stabilise();
+    check!(o_obs.try_get_value() == Ok(-1) && n_obs.try_get_value() == Ok(1110), "after the switch: O {:?}, n {:?}", o_obs.try_get_value(), n_obs.try_get_value());
+    s.set(false); // O's input grows taller, same value
+    st.stabilise();
+    let a = st.verif_audit();
+    check!(a.is_empty(), "audit after O's input grew: {}", a.join(" / "));
+    log.borrow_mut().clear();
+    x.set(2);
+    v.set(20);
+    st.stabilise();
+    for (captured, actual, vv) in log.borrow().iter() {
+        check!(captured == actual, "n, built by the run of the outer bind for x={captured}, ran (on v={vv}) while x={actual}: stale captured input");
+    }
+    check!(n_obs.try_get_value() == Err(ObserverError::ObservingInvalid), "n reads {:?}", n_obs.try_get_value());
+    let a = st.verif_audit();
+    check!(a.is_empty(), "audit at the end: {}", a.join(" / "));
+    Ok(())
+}
+
+
+/// The observability callback of an expert node creates (and drops, or keeps outside any closure)
+/// an observer when the expert node becomes observed through a *new observer* (defect #31, pointed
+/// out by a round-6 seeding agent): `add_new_observers` kept the list of new observers mutably
+/// borrowed while linking them.
+fn observe_from_observability_callback() -> Result<(), String> {
+    for keep in [false, true] {
+        let st = IncrState::new();
+        let v = st.var(1i64);
+        let side = v.map(|x| x + 1);
+        let w = st.var(5i64);
+        let kept: Rc<RefCell<Vec<incremental::Observer<i64>>>> = Rc::new(RefCell::new(vec![]));
+        let k2 = kept.clone();
+        let expert = ExpertNode::<i64>::new_(&st.weak(), move || 7, move |observed| {
+            if observed {
+                let o = side.observe();
+                if keep {
+                    k2.borrow_mut().push(o);
+                }
+            }
+        });
+        expert.add_dependency(&w.watch());
+        let o = expert.watch().observe();
+        st.stabilise();
+        check!(o.try_get_value() == Ok(7), "keep={keep}: expert node {:?}", o.try_get_value());
+        st.stabilise();
+        if keep {
+            let got = kept.borrow()[0].try_get_value();
+            check!(got == Ok(2), "keep={keep}: the observer made by the callback reads {:?}", got);
+        }
+        v.set(4);
+        st.stabilise();
+        if keep {
+            let got = kept.borrow()[0].try_get_value();
+            check!(got == Ok(5), "keep={keep}: after a write {:?}", got);
+        }
+        let a = st.verif_audit();
+        check!(a.is_empty(), "keep={keep}: audit: {}", a.join(" / "));
+        kept.borrow_mut().clear();
+    }
     Ok(())
 }
